@@ -443,6 +443,7 @@ type Contract struct {
 	Trusted    bool
 	NoSafety   bool // do not generate run-time panic obligations (used for sweeps that are not claimed)
 	MayPanic   bool
+	NonBlocking bool // the function's own channel operations never wait: every send / receive is a case of a select with a default
 	UnsafeReads string   // reason: unsafe.Pointer conversions in this function are only read through
 	Recovers   bool      // a deferred function of this function recovers panics of its callees (checked at every call that may panic)
 	OnPanic    []*Clause // what holds when a callee panicked and the deferred functions have run
@@ -507,7 +508,7 @@ func NewSpecs() *Specs {
 	return &Specs{Contracts: map[string]*Contract{}, Funs: map[string]*SpecFun{}, Ghosts: map[string]*GhostFun{}}
 }
 
-var keywordRe = regexp.MustCompile(`^(func|iface|functype|spec|ufun|hfun|haxiom|hlemma|axiom|lemma|ghost|property|trusted|pure|implements|requires|ensures|modifies|loop|invariant|decreases|end|may_panic|nosafety|assume|alloc|hint|posthint|replay|check|split|ghostset|atcall|assumepre|slicewf|recovers|onpanic|unsafe_reads|absidx|tier|eachround)\b`)
+var keywordRe = regexp.MustCompile(`^(func|iface|functype|spec|ufun|hfun|haxiom|hlemma|axiom|lemma|ghost|property|trusted|pure|implements|requires|ensures|modifies|loop|invariant|decreases|end|may_panic|nosafety|assume|alloc|hint|posthint|replay|check|split|ghostset|atcall|assumepre|slicewf|recovers|onpanic|unsafe_reads|absidx|tier|eachround|nonblocking)\b`)
 var labelRe = regexp.MustCompile(`^([A-Za-z_][A-Za-z0-9_.]*)\s*:([^:]|$)`)
 var propTagRe = regexp.MustCompile(`^\[([A-Za-z0-9 ,]+)\]\s*`)
 var headRe = regexp.MustCompile(`^(\S.*?)\(([^)]*)\)\s*(?:\(([^)]*)\))?\s*$`)
@@ -659,6 +660,8 @@ func (sp *Specs) ParseSpecFile(path string, pkg string) error {
 			cur.HasMod = true
 		case "may_panic":
 			cur.MayPanic = true
+		case "nonblocking":
+			cur.NonBlocking = true
 		case "unsafe_reads":
 			cur.UnsafeReads = strings.TrimSpace(strings.TrimPrefix(strings.TrimSpace(rest), ":"))
 			if cur.UnsafeReads == "" {
